@@ -497,12 +497,50 @@ def run(ctx):
     corr = merge(corr, outs)
     corr.info["type_combinations"] = len(combos) - len(failed)
     corr.info["points_per_combination"] = nfields * npts
+    run_corpus(ctx, corr, cfgs)
     return corr
+
+
+CORPUS = [   # (op, coordinate, witness id or None for a control, what)
+    ("big", ("f32", 5.0), None, "control"),
+    ("wrap32", ("f64", 7.25), None, "control"),
+    ("big", ("f32", 1e30), "F13", "coordinate beyond the range of the index type over a clamp layer: float->index conversion out of range"),
+    ("wrap32", ("f64", 4294967295.5), "F15", "+1 neighbour index wraps in a 32-bit index type before the clamp layer sees it"),
+]
+
+
+def run_corpus(ctx, corr, cfgs):
+    """always-run witnesses at the edge of the index type's range (interpolator over a clamp layer; the property admits any x >= 0
+    there): values 10,20,30,40, clamp box [0,3] => every x >= 3 must give 40"""
+    src = C.VERIF / "harness" / "cpp" / "lin_corpus.cpp"
+    jobs = [(src, ctx.work.path(f"lincorpus_{cfg}"), cfg, []) for cfg in cfgs]
+    for j, (rc, err) in zip(jobs, C.compile_many(jobs)):
+        if rc != 0:
+            raise C.CompileError(j[0], j[2], err)
+    lines = [f"{op} {tobits(32 if k == 'f32' else 64, x)}" for op, (k, x), _, _ in CORPUS]
+    want = str(tobits(32, 40.0))
+    for cfg in cfgs:
+        outs, _ = C.run_lines(ctx.work.path(f"lincorpus_{cfg}"), lines)
+        for (op, (k, x), wit, what), o in zip(CORPUS, outs):
+            corr.configs[cfg] += 1
+            corr.case(("corpus", op, x, cfg), True)
+            corr.dist["corpus/" + (wit or "control")] += 1
+            ok = o == want
+            corr.add_obl("lin_bound", 1, 0)      # the model agrees with the property here (it flags the conversion); the code is what differs
+            if not ok:
+                got = frombits(32, int(o)) if o.isdigit() else o
+                corr.violation("lin_bound", f"linear over clamp [0,3] (values 10,20,30,40) at x = {x!r} ({cfg}): result {got}, the interpolant of the "
+                               f"clamped neighbours is 40 — {what}", {"corpus": op, "x": x, "cfg": cfg}, impl=o, model=want, oracle_fails=True,
+                               key={"kind": "corpus", "witness": wit or "control", "op": op}, cfg=cfg)
 
 
 def replay(ctx):
     c = ctx.replay["case"]
     corr = Corr()
+    if "corpus" in c:
+        corr.add_obl("lin_bound")
+        run_corpus(ctx, corr, [c.get("cfg", "dbg")])
+        return corr
     if "combo" not in c:
         return merge(corr, [])
     cb = tuple(c["combo"])
